@@ -95,6 +95,8 @@ type Exec struct {
 	// axioms requested while a quantified formula was being built (emitted when it is complete)
 	pendingAxioms []string
 	assertSeen    map[string]bool
+	rename          map[string]string // contract identifier -> renamed local (see zrebind.go)
+	unresolvedHints map[string]bool   // witness names that did not resolve at some return
 }
 
 type Frame struct {
